@@ -69,6 +69,25 @@ def cases(tier):
                             if tier == "quick" and yf != 1.0 and (data not in ("ok", "neg1e-3") or len(entered) > 3):
                                 continue
                             yield dict(withj=withj, fam=list(fam), entered=entered, data=data, yf=yf)
+    # calibration factor on the denominator / on the fraction itself; timed compartment with a non-integer number of steps; very large populations
+    for fam in [f for f in fams if "frac" in f][:4]:
+        for entered in (["abc", "frac"], ["a", "c", "abc", "frac"], ["abc", "frac", "a"]):
+            for yf_on in ("denominator", "fraction"):
+                for yf in (0.5, 2.0):
+                    for data in ("ok", "off1", "neg1"):
+                        yield dict(withj=False, fam=list(fam), entered=entered, data=data, yf=yf, yf_on=yf_on)
+    for fam in fams[:10]:
+        for entered in (["a", "b", "c"], ["b"] + [f for f in fam if f != "frac"][:1], ["a", "b", "c"] + [f for f in fam if f != "frac"]):
+            if any(q not in ("a", "b", "c") and q not in fam for q in entered):
+                continue
+            for timedD in (1.1, 0.1, 0.5):
+                for data in ("ok", "off1", "neg1e-3"):
+                    yield dict(withj=False, fam=list(fam), entered=entered, data=data, yf=1.0, timedD=timedD)
+    for fam in fams:
+        for entered in (["a", "b", "c"], ["a", "b", "c"] + [f for f in fam]):
+            if "frac" in entered and "abc" not in entered:
+                continue
+            yield dict(withj=False, fam=list(fam), entered=entered, data="ok", yf=1.0, scale="big")
     # several population types: a second type (compartments x, y, characteristic xy) in its own population
     for fam in fams[:8]:
         for entered in (["a", "b", "c"], ["abc"] if "abc" in fam else ["a"], ["a", "b", "c"] + [f for f in fam if f != "frac"]):
@@ -83,6 +102,8 @@ def cases(tier):
 def make_spec(case):
     fam, entered, data, yf = case["fam"], case["entered"], case["data"], case["yf"]
     x = dict(TRUE)
+    if case.get("scale") == "big":
+        x = dict(a=5e7, b=20.0, c=1e6)  # a fraction far below 1e-6 whose numerator is an ordinary count
     if data == "zero":
         x = dict(a=0.0, b=0.0, c=0.0)
     vals = {}
@@ -109,6 +130,10 @@ def make_spec(case):
                 vals[tgt] = -d
     # the calibration factor is applied to the first entered quantity; the entered value is divided so that the product is the intended value
     first = entered[0]
+    if case.get("yf_on") == "denominator":
+        first = "abc"
+    elif case.get("yf_on") == "fraction":
+        first = "frac"
     spec = dict(
         comps=[dict(name=n, kind="ord") for n in "abc"],
         pars=[dict(name="r1", fmt="rate", val=0.4), dict(name="r2", fmt="rate", val=0.6)],
@@ -135,6 +160,9 @@ def make_spec(case):
     # declaration order: larger characteristics first
     order = ["abc", "ab", "bc", "nest", "frac"]
     spec["characs"].sort(key=lambda c: order.index(c["name"]))
+    if case.get("timedD"):
+        # b becomes a timed compartment: its outflow to c is driven by a timed duration parameter
+        spec["pars"] = [p for p in spec["pars"] if p["name"] != "r2"] + [dict(name="r2", fmt="duration", val=case["timedD"], timed=True)]
     vals2 = {}
     if case.get("t2"):
         t2 = case["t2"]
@@ -193,7 +221,7 @@ def run_case(case):
             exp = val
         # redistribution of the junction's initial contents (C04)
         exp_post = exp + j0 * sum(SHARE.get(mm, 0.0) for mm in mem)
-        if abs(got - exp_post) > tol * max(1.0, 1.0):
+        if abs(got - exp_post) > tol:
             vs.append(V("initial-state-differs-from-databook", f"{case}: entered {q} = {val!r} (target {exp_post!r} after junction redistribution) but the run starts with {got!r}", dict(quantity=q)))
     if case.get("t2"):
         pb = m.pops[1]
